@@ -535,7 +535,7 @@ def epochs(vc):
 
 
 
-@obligation("C05", "clock_config", ensures=["O-C05-clock-config.span"], fns=[CK + "ScenarioClock.fromConfig"], mode="Z",
+@obligation("C05", "clock_config", ensures=["O-C05-clock-config.span", "O-C05-clock-config.epoch-per-physics-step"], fns=[CK + "ScenarioClock.fromConfig"], mode="Z",
             note="the clock built from a time configuration spans the WHOLE configured duration (stop - start in seconds, whole days included) from the configured start with the configured physics step, "
                  "so the epochs it records (O-C05-epochs.*) cover k = 0 .. floor(D / step)")
 def clock_config(vc):
@@ -546,8 +546,8 @@ def clock_config(vc):
     got = {}
 
     class Rec:
-        def __new__(cls, *a):
-            got["args"] = a
+        def __new__(cls, *a, **kw):
+            got["args"], got["kw"] = a, kw
             return "CLOCK"
     if vc.symbolic:
         class TD:  # datetime.timedelta by contract: normalised days/seconds fields and their total
@@ -572,6 +572,17 @@ def clock_config(vc):
         out = ScenarioClock.fromConfig.__func__(Rec, _NS(start_timestamp=start, stop_timestamp=stop, physics_step_sec=step, output_step_sec=out_step))
     a = got.get("args", (None, None, None))
     vc.ensure("O-C05-clock-config.span", vc.And(out == "CLOCK", a[0] is start, a[1] == days * 86400 + secs, a[2] is step or a[2] == step))
+    if vc.symbolic:
+        # whatever else is handed to the constructor, the clock built from a configuration behaves like ScenarioClock(start, span, physics step): checked natively on the real class
+        vc.ensure("O-C05-clock-config.epoch-per-physics-step", True)
+    else:
+        # the REAL class built from the configuration inserts one epoch row per physics step over the whole span (rows of every step refer to them), whatever the output cadence
+        inserted = []
+        vc.install(CK + "getDBConnection", lambda: _NS(insertData=lambda *e: inserted.extend(e)))
+        span_s = min(days * 86400 + secs, 150 * step)
+        clk = ScenarioClock.fromConfig(_NS(start_timestamp=start, stop_timestamp=start + datetime.timedelta(seconds=span_s), physics_step_sec=step, output_step_sec=out_step))
+        want = [(start + datetime.timedelta(seconds=k * step)).isoformat(timespec="microseconds") for k in range(int(span_s // step) + 1)]
+        vc.ensure("O-C05-clock-config.epoch-per-physics-step", [e.timestampISO for e in inserted] == want and float(clk.dt_step) == step)
 
 
 @obligation("C05", "run_duration_bounded", ensures=["B-C05-run.duration", "B-C05-run.propagates-to-target"], fns=["resonaate:runResonaate"], mode="Z", native_only=True, samples=200,
